@@ -11,6 +11,8 @@ import os
 from harness.sched import core
 from harness import names
 
+PIN_TRACKING = [False]     # set by library._run when upload buffers are tracked (C10 / C11)
+
 MODS = ['futures', 'utils', 'download', 'manager', 'bandwidth', 'tasks', 'upload', 'copies', 'delete']
 
 
@@ -351,12 +353,34 @@ class Instr:
                 finally:
                     mk = getattr(self_, TN['main_kwargs'], None)
                     fo = mk.get('fileobj') if isinstance(mk, dict) else None
+                    # A part body whose task has ended is garbage unless something still refers to it.
+                    # The usual way to pin it is a bound method of the body (or of one of its wrappers)
+                    # registered somewhere as a callback: such a body still occupies memory.
+                    pinned = False
+                    inner = fo
+                    for _ in range(6):
+                        if inner is None or hasattr(inner, 'getbuffer'):
+                            break
+                        inner = getattr(inner, '_fileobj', None)
+                    # (only a body the task did NOT close can still occupy memory: scan then)
+                    if PIN_TRACKING[0] and fo is not None and inner is not None and not getattr(inner, 'closed', True):
+                        import gc
+                        import types
+                        layer = fo
+                        for _ in range(6):
+                            if layer is None:
+                                break
+                            if any(isinstance(r, types.MethodType) and r.__self__ is layer for r in gc.get_referrers(layer)):
+                                pinned = True
+                                break
+                            layer = getattr(layer, '_fileobj', None)
                     for _ in range(6):          # ReadFileChunk -> (BandwidthLimitedStream) -> InterruptReader -> BytesIO
                         if fo is None:
                             break
                         if hasattr(fo, 'getbuffer'):
                             try:
                                 fo.dead = True
+                                fo.pinned = pinned
                             except AttributeError:
                                 pass
                             break
